@@ -7,7 +7,7 @@ from . import alphabets as al
 from . import refgeo as rg
 from .runner import call_limited, exc_str
 
-OP_LIMIT = 60  # seconds; the unchanged tree needs < 1 s for polygons
+OP_LIMIT = 120  # seconds; the unchanged tree needs < 1 s for polygons
 
 
 def run_expr(e, limit=OP_LIMIT):
@@ -45,6 +45,10 @@ def expr_is_rational(e):
         elif l[0] == "PC":
             v = l[2] if len(l) > 2 else "int"
             if v not in ("int", "frac", "half"):
+                return False
+            continue
+        elif l[0] == "MV":
+            if not expr_is_rational(l[1]) or isinstance(al.parse_num(l[2]), float) or isinstance(al.parse_num(l[3]), float):
                 return False
             continue
         for x, y in pts:
